@@ -55,8 +55,36 @@ func genC01(r *rng, tier string, add func(g *G)) {
 			g.c.tag("directed_long_chain_split")
 			ops = 40
 		}
+		if i%8 == 2 {
+			// Directed: an overflow chain with a HOLE in its head bucket (a delete, no refill), then
+			// index growth through keys of other buckets until that bucket itself is split: the split
+			// must carry over the slots behind the hole
+			target := uint32(g.r.next())
+			coll := g.collidingKeysAt(38+g.r.intn(6), 12, target, "H")
+			// the growth comes from keys of ANOTHER bucket (lowest hash bit differs), so the hole is
+			// not refilled before the split
+			others := g.collidingKeysAt(60+g.r.intn(30), 12, target^1, "G")
+			g.keys = append(append([][]byte{}, coll...), others...)
+			every := g.dumpEvery
+			g.dumpEvery = 25 // (full state dumps are expensive on the list-based model)
+			for _, k := range coll {
+				g.put(k, g.value())
+			}
+			g.del(coll[g.r.intn(20)])
+			for _, k := range others {
+				g.put(k, g.value())
+			}
+			g.dumpEvery = every
+			g.dump()
+			g.checkAll()
+			for _, k := range coll {
+				g.get(k)
+			}
+			g.c.tag("directed_split_of_a_chain_with_a_hole")
+			ops = 30
+		}
 		// Directed prefix: fill a chain past one bucket, open a hole early in it, re-put a late key.
-		if i%4 != 2 && i%8 != 4 && len(g.keys) >= 34 {
+		if i%4 != 2 && i%8 != 4 && i%8 != 2 && len(g.keys) >= 34 {
 			for _, k := range g.keys[:34] {
 				g.put(k, g.value())
 			}
@@ -369,6 +397,40 @@ func genC04Directed(r *rng, tier string, add func(g *G)) {
 		g.c.tag("compaction_after_recovery_then_crash")
 		add(g)
 	}
+	// Directed: crash, recovery, CLEAN Close, Open, a small write, crash: after the clean restart the
+	// older segment (which has room left) must still be sealed, so the write goes to the newest one.
+	for i := 0; i < scale(tier, 4, 40); i++ {
+		g := newG(r.fork(), fmt.Sprintf("%s/recover-close-open/%d", "C04", i))
+		g.dumpEvery = 0
+		g.params(1024, 512, 0.2, false)
+		g.open()
+		a, k := []byte("a"), []byte("k")
+		g.keys = [][]byte{a, k}
+		g.put(a, g.r.bytes(295+g.r.intn(10))) // leaves ~200 bytes free in the first segment
+		g.put(k, g.r.bytes(295+g.r.intn(10))) // does not fit: second segment
+		g.do("kill")
+		g.isOpen = false
+		g.open()
+		g.checkAll()
+		g.dump()
+		g.close()
+		g.open()
+		g.c.Steps[len(g.c.Steps)-1].Expect = []string{"open ok recovered=0"}
+		g.dump()
+		if i%2 == 0 {
+			g.put(k, []byte("new"))
+		} else {
+			g.del(k)
+		}
+		g.checkAll()
+		g.do("kill")
+		g.isOpen = false
+		g.open()
+		g.checkAll()
+		g.dump()
+		g.c.tag("recovery_then_clean_restart_then_write_then_crash")
+		add(g)
+	}
 	// Directed: segment ids are reused after a compaction, so the NEWEST segment (by sequence id) can
 	// have a LOWER file id than an older one that still has room. After a crash the newest one must
 	// become current again: a small write after the recovery, a second crash, and the write must
@@ -613,6 +675,7 @@ func genC05SmallOlder(r *rng, tier string, add func(g *G)) {
 func genC05(r *rng, tier string, add func(g *G)) {
 	genC05Directed(r, tier, add)
 	genC05SmallOlder(r, tier, add)
+	genC04Directed(r, tier, add) // compaction after a recovery (rebuilt counters), then a crash
 	n := scale(tier, 60, 1500)
 	for i := 0; i < n; i++ {
 		g := newG(r.fork(), fmt.Sprintf("C05/%d", i))
